@@ -101,7 +101,7 @@ Definition spec_split_doc : bytes -> bytes -> option (bytes * bytes) := spec_spl
 Definition spec_split : bytes -> bytes -> option (bytes * bytes) := spec_split_gen true.
 
 (* ------------------------------------------------------------------------------------------------
-   Known deviation classes (DESIGN §8 F9, F10, F11, F24).  All are stated on the lines of the input
+   Known deviation classes (DESIGN §8 F9, F10, F11, F25).  All are stated on the lines of the input
    and on the spec's own answer, never on the implementation's. *)
 
 Fixpoint has_lone_cr (s : bytes) : bool :=
@@ -125,7 +125,7 @@ Definition last_eol (ls : list line) : eol :=
 (* 0 = inside no known class.
    1 lone_cr:               the front matter the spec finds contains a CR that is not followed by LF
                             (CR-only or mixed line endings; F11)
-   2 empty_front_matter:    the closing line follows the opening line immediately (F24)
+   2 empty_front_matter:    the closing line follows the opening line immediately (F25)
    3 later_crlf_closer:     the closing line ends in LF and a LATER line is exactly the delimiter and
                             ends in CR LF (F9)
    4 prefix_line_hides_eof_closer: the closing line is the last line of the input, unterminated, and
@@ -160,3 +160,12 @@ Definition fm_class (s d : bytes) : N :=
 (* number of line endings LF inside a byte string: the amount by which source lines of the rest of
    the document are shifted when the front matter is written with LF or CRLF line endings *)
 Definition lf_count (s : bytes) : N := N.of_nat (List.length (filter (fun b => beqb b x0a) s)).
+
+(* number of (terminated) lines of a front matter: the amount by which the source lines of the rest
+   of the document are shifted *)
+Definition spec_line_count (fm : bytes) : N :=
+  N.of_nat (List.length (filter (fun l => terminated (snd l)) (lines fm))).
+
+(* class bom_after_front_matter (F12): the rest of the document begins with a byte-order mark.  Alone it
+   would be dropped by the parser; after front matter it is kept as text. *)
+Definition rest_has_bom (r : bytes) : bool := starts_with r spec_bom.
